@@ -24,6 +24,7 @@ def check(ctx):
     provrules.rule_span_records(ctx, facts, "R3")
     provrules.rule_scope_parent(ctx, facts, "R4")
     provrules.rule_token_derivation_total(ctx, facts, "R6")
+    provrules.rule_token_order_preserved(ctx, facts, "R6")
     c = collector.Collector(ctx, facts)
     if c.need("R5"):
         spanrules.rule_fanout(ctx, c, "R5")
